@@ -60,6 +60,9 @@ func init() {
 		return RunNestedTx(&ReplaySrc{Vals: vals}, mkC12(), keepLog)
 	})
 	regSafety("C13", mkC13, shC13)
+	replayers["C13"] = append(replayers["C13"], func(vals []int, keepLog bool) *sim.World {
+		return RunWatchOnlySolo(&ReplaySrc{Vals: vals}, mkC13(), keepLog)
+	})
 }
 
 func TestC01(t *testing.T) {
@@ -213,4 +216,19 @@ func TestC13(t *testing.T) {
 	rapid.Check(t, TimedProp(e, mkC13t, shC13t, func(w *sim.World) bool {
 		return w.Stats["c13_watch_is_primary"] > 0 && w.TimedRes != nil && w.TimedRes.Done
 	}))
+	if t.Failed() {
+		return
+	}
+	// ... and a flagged validator with a past: its peers relay what its index sent before the flag was set
+	rapid.Check(t, func(t *rapid.T) {
+		src := &RapidSrc{T: t}
+		w := RunWatchOnlySolo(src, mkC13(), false)
+		fatal := e.Report(w, src.Rec, func() string {
+			return RunWatchOnlySolo(&ReplaySrc{Vals: src.Rec}, mkC13(), true).Render()
+		})
+		e.Case(FPInts(src.Rec), w.Stats["c13_watch_is_primary"] > 0 && w.Stats["c13_own_request_delivered"] > 0, w.Stats, func() any { return sampleOf(w, src.Rec) })
+		if fatal != "" {
+			t.Fatalf("%s", fatal)
+		}
+	})
 }
